@@ -1,4 +1,5 @@
 import time  # noqa: F401
+from threading import RLock
 from rpyc.lib import Timeout
 from rpyc.lib.compat import TimeoutError as AsyncResultTimeout
 
@@ -8,7 +9,7 @@ class AsyncResult(object):
     will eventually have a result. Use the :attr:`value` property to access the
     result (which will block if the result has not yet arrived).
     """
-    __slots__ = ["_conn", "_is_ready", "_is_exc", "_callbacks", "_obj", "_ttl"]
+    __slots__ = ["_conn", "_is_ready", "_is_exc", "_callbacks", "_obj", "_ttl", "_cb_lock"]
 
     def __init__(self, conn):
         self._conn = conn
@@ -16,6 +17,7 @@ class AsyncResult(object):
         self._is_exc = None
         self._obj = None
         self._callbacks = []
+        self._cb_lock = RLock()
         self._ttl = Timeout(None)
 
     def __repr__(self):
@@ -35,9 +37,14 @@ class AsyncResult(object):
         self._is_exc = is_exc
         self._obj = obj
         self._is_ready = True
-        for cb in self._callbacks:
-            cb(self)
-        del self._callbacks[:]
+        self._run_callbacks()
+
+    def _run_callbacks(self):
+        # another thread may register a callback while the reply is being dispatched (e.g. by a
+        # BgServingThread): every callback is taken out of the list exactly once, in registration order
+        with self._cb_lock:
+            while self._callbacks:
+                self._callbacks.pop(0)(self)
 
     def wait(self):
         """Waits for the result to arrive. If the AsyncResult object has an
@@ -56,10 +63,9 @@ class AsyncResult(object):
 
         :param func: the callback function to add
         """
+        self._callbacks.append(func)
         if self._is_ready:
-            func(self)
-        else:
-            self._callbacks.append(func)
+            self._run_callbacks()
 
     def set_expiry(self, timeout):
         """Sets the expiry time (in seconds, relative to now) or ``None`` for
